@@ -18,7 +18,10 @@ def gen_script(rng, chk):
     n = rng.randint(1, 8)
     alpha = rng.choice([-1.0, -1.0, 0.5, 0.25, 0.1, 1.0, rng.random()])
     eps = rng.choice([0.0, 0.0, 1.0, 0.1, 0.5, rng.random()])
-    q0 = rng.choice([0.0, 0.0, 1.0, -2.5, rng.random()])
+    q0 = rng.choice([0.0, 0.0, 1.0, -2.5, rng.random(),
+                     # optimistic initial values written as integers (admissible for a float parameter), numpy scalars of other dtypes
+                     1, 5, True, np.int64(2), np.float32(0.5)])
+    chk.count("initial_values_type:" + type(q0).__name__)
     seed = rng.randrange(10 ** 6)
     chk.count(f"alpha:{'sample_avg' if alpha == -1 else 'const'}"); chk.count(f"eps:{'0' if eps == 0 else '1' if eps == 1 else 'mid'}")
     ops = []
@@ -108,8 +111,8 @@ def oracle(n, alpha, eps, trace) -> list[str]:
         elif t[0] == "L":
             _, a, r, qb, cb, qa, ca = t
             step = Fraction(1, cb[a] + 1) if alpha == -1 else Fraction(alpha)
-            want = Fraction(qb[a]) + step * (Fraction(r) - Fraction(qb[a]))
-            if not close(qa[a], want) and abs(Fraction(qa[a]) - want) > Fraction(1, 2 ** 45):
+            want = Fraction(float(qb[a])) + step * (Fraction(float(r)) - Fraction(float(qb[a])))
+            if not close(float(qa[a]), want) and abs(Fraction(float(qa[a])) - want) > Fraction(1, 2 ** 45):
                 errs.append(f"estimate of action {a} moved to {qa[a]!r}, rule gives {float(want)!r}")
             if ca[a] != cb[a] + 1 or any(ca[j] != cb[j] for j in range(n) if j != a):
                 errs.append("counters not updated as documented")
@@ -142,8 +145,8 @@ def run(chk: Check):
     for s, (lean_ops, outs, trace, ag), ans in zip(scripts, reals, answers):
         n, alpha, eps, q0, seed, ops = s
         kinds = {t[0] for t in trace}
-        chk.case([n, alpha, eps, q0, seed, ops], {"P", "L"} <= kinds,
-                 {"n_actions": n, "alpha": alpha, "eps": eps, "q0": q0, "ops": ops[:6], "final_Q": list(ag.Q)})
+        chk.case([n, alpha, eps, float(q0), type(q0).__name__, seed, ops], {"P", "L"} <= kinds,
+                 {"n_actions": n, "alpha": alpha, "eps": eps, "q0": float(q0), "q0_type": type(q0).__name__, "ops": ops[:6], "final_Q": [float(x) for x in ag.Q]})
         for e in oracle(n, alpha, eps, trace):
             chk.fail("bandit: " + e, {"case": {"script": s}})
         if eps == 0.0:
